@@ -418,6 +418,11 @@ def run(ctx):
         heap.install(interp)
     ctx.prove("scc.SCCReader.read[line-length scan]", region_accumulation, functions=[SCCReader.read],
               setup_interp=setup, crosscheck=False)
+    # which pieces of text make up one LINE is decided by the position tracker: a preamble on the same row 1-3 columns
+    # to the right is a tab offset (same line), any other address starts another line (contract shared with C05)
+    import props.C05 as C05
+    from pycaption.scc.state_machines import _PositioningTracker
+    ctx.prove("scc._PositioningTracker.update_positioning", C05.tracker_transition, functions=[_PositioningTracker.update_positioning])
     ctx.bounded("streams", "SCC streams in pop-on / roll-up / paint-on mode, explicitly terminated or not, rows of "
                 "0-40 characters; three rows on non-adjacent screen rows (captions sharing a start time) in every "
                 "order of long and short; two consecutive captions over all length pairs; seeded random: raises the "
